@@ -417,7 +417,7 @@ def gen_stmt(r, is_async, depth, in_loop=False):
     E = lambda: gen_expr(r, is_async)  # noqa: E731
     B = lambda il=in_loop: gen_body(r, is_async, depth - 1, il) if depth > 0 else "{{ %s }}" % E()  # noqa: E731
     kinds = ["out", "out", "out", "out2", "if", "for", "set", "setblock", "with", "filterblock", "macro", "call", "autoescape",
-             "include", "import", "from", "ifelse", "forelse", "forif", "recfor", "raw", "comment", "ns", "loopvar", "cond",
+             "include", "import", "from", "ifelse", "forelse", "forif", "forif", "recfor", "raw", "comment", "ns", "loopvar", "cond",
              "includectx", "fromctx", "includelist", "text"]
     if depth <= 0:
         kinds = ["out", "out", "out2", "set", "text", "cond", "loopvar"]
@@ -444,7 +444,11 @@ def gen_stmt(r, is_async, depth, in_loop=False):
     if k == "forelse":
         return "{%% for x in %s %%}%s{%% else %%}%s{%% endfor %%}" % (r.choice(its), B(True), B())
     if k == "forif":
-        return "{%% for x in %s if %s %%}%s{{ loop.length }}{%% endfor %%}" % (r.choice(its), r.choice(["x", "x != 1", "x is defined", "n"]), B(True))
+        it = r.choice(its)
+        if r.random() < 0.5:    # an iterable *expression* with events of its own (call / attribute / item / filter)
+            it = r.choice(["f(%s)" % it, "f(o.items)", "o.items", "g()", "ob['a']|list", "pd['q']", "(%s)|list" % it, "o.sub.f()|string"])
+        rec = " recursive" if r.random() < 0.15 else ""
+        return "{%% for x in %s if %s%s %%}%s{{ loop.length }}{%% endfor %%}" % (it, r.choice(["x", "x != 1", "x is defined", "n"]), rec, B(True))
     if k == "recfor":
         return "{%% for x in %s recursive %%}{{ loop.depth }}{%% if loop.depth < 2 %%}{{ loop(%s) }}{%% endif %%}{%% endfor %%}" % (
             r.choice(["xs", "objs", "it", "pl"]), r.choice(["xs", "e", "pl"]))
@@ -497,6 +501,22 @@ FIXED = [
     "{{ xs|first }}{{ e|first }}{{ xs|last }}{{ e|last }}{{ xs|min }}{{ e|max }}{{ it|first }}",
     "{{ n|int }}{{ s|int }}{{ o|int }}{{ n|float }}{{ s|float(1.0) }}{{ xs|reverse|list|length }}{{ it|reverse|length }}",
     "{{ o|attr('a') }}{{ o|attr('missing') }}{{ xs|sort|join }}{{ objs|groupby('g')|length }}{{ ys|unique|join }}{{ xs|sum }}",
+    # filtered for-loops: the *iterable expression* (call / attribute / item / filter in the `in …` part) is a fault position
+    # of its own — in async mode the loop filter is a generator guarded by try/finally (compiler.py visit_For)
+    "{% for x in f(xs) if x %}{{ x }}{% endfor %}|{% for x in o.items if x > 0 %}{{ x }}{% else %}-{% endfor %}",
+    "{% for x in g() if x is defined %}{{ x }}{% endfor %}|{% for x in pd['q'] if x %}{{ x }}{% endfor %}|{% for x in ob['a']|list if x %}{% endfor %}",
+    "{% for x in xs|map('int') if x %}{{ x }}{% endfor %}|{% for x in objs|map(attribute='g') if x %}{{ x }}{% endfor %}|{% for x in o.sub.f()|string if x %}{{ x }}{% endfor %}",
+    "{% for x in o.items if x recursive %}{{ loop.depth }}{% if loop.depth < 2 %}{{ loop(g()) }}{% endif %}{% endfor %}",
+    "{% for y in f(xs) if y %}{% for x in f(o.items) if x %}{{ x }}{% endfor %}{% for x in d.j|list if x %}{{ x }}{% endfor %}{% endfor %}",
+    "{% macro m(p) %}{% for x in p.items if x %}{{ x }}{% endfor %}{% for x in g() if x %}{{ x }}{% endfor %}{% endmacro %}{{ m(o) }}",
+    "{% set sb %}{% for x in g() if x %}{{ x }}{% endfor %}{% endset %}{{ sb }}{% filter upper %}{% for x in f(ys) if x %}{{ x }}{% endfor %}{% endfilter %}",
+    "{% macro c() %}<{{ caller() }}>{% endmacro %}{% call c() %}{% for x in f(xs) if x %}{{ x }}{% endfor %}{% for x in o.items if x %}{{ x }}{% endfor %}{% endcall %}",
+    "{% for x in xs|select if f(x) %}{{ loop.index }}{% endfor %}|{% for k, v in d|dictsort if v %}{{ k }}{% endfor %}|{% for x in o.missing if x %}{% endfor %}",
+]
+FIXED_ASYNC = [
+    "{% for x in f(axs) if x %}{{ x }}{% endfor %}|{% for x in axs|map('int') if x %}{{ x }}{% endfor %}|{% for x in af() if x %}{% endfor %}",
+    "{% for y in axs if y %}{% for x in f(o.items) if x %}{{ x }}{% endfor %}{% endfor %}|{% for x in g() if af() %}{{ x }}{% endfor %}",
+    "{% macro m() %}{% for x in o.items if x %}{{ x }}{% endfor %}{% endmacro %}{{ m() }}{% set sb %}{% for x in f(axs) if x %}{{ x }}{% endfor %}{% endset %}{{ sb }}",
 ]
 
 
@@ -589,7 +609,19 @@ def run_entry(env, name, mode, is_async):
         st = t.stream(**data)
         st.enable_buffering(3)
         return _join(st)
+    if mode == "render_async_shared_loop":
+        # clean re-renders only: one long-lived event loop instead of a new one per render (asyncio.run is expensive)
+        return _shared_loop().run_until_complete(_arun(t, data, "render_async"))
     return asyncio.run(_arun(t, data, mode))
+
+
+_LOOP = []
+
+
+def _shared_loop():
+    if not _LOOP or _LOOP[0].is_closed():
+        _LOOP[:] = [asyncio.new_event_loop()]
+    return _LOOP[0]
 
 
 def observe(env, name, mode, is_async, plan):
@@ -680,10 +712,11 @@ def run(ctx, res):
         is_async = r.random() < 0.4
         kind = r.choice(ENV_KINDS)
         templates, mains = gen_templates(r, is_async)
-        if ei < 2:
-            is_async, kind = (ei == 1), ("plain" if ei == 0 else "sandbox")
+        fixed_env = ei < 3
+        if fixed_env:
+            is_async, kind = (ei >= 1), ("sandbox" if ei == 1 else "plain")
             mains = []
-            for j, src in enumerate(FIXED):
+            for j, src in enumerate(FIXED + (FIXED_ASYNC if is_async else [])):
                 templates["fixed%d" % j] = src
                 mains.append("fixed%d" % j)
         if target_words:   # steer towards the offending site named by the finder
@@ -720,7 +753,8 @@ def run(ctx, res):
             if n_ev > max_k:
                 ks = sorted(r.sample(ks, max_k))
             for k in ks:
-                for cls in r.sample(EXC, exc_per_k):
+                # the fixed corpus always gets the two classes that are signals nowhere, plus one other
+                for cls in ([Boom, BoomBase] + r.sample(EXC[2:], 1) if fixed_env else r.sample(EXC, exc_per_k)):
                     mode = r.choice(modes)
                     exc = cls("injected")
                     plan = Plan(k, exc)
@@ -746,7 +780,7 @@ def run(ctx, res):
                     # engine still usable: same template and another one, clean, on the same environment
                     other = mains[(mi + 1 + k) % len(mains)]
                     for again in (nm, other):
-                        got = observe(env, again, "render", is_async, Plan())[:2]
+                        got = observe(env, again, "render_async_shared_loop" if is_async else "render", is_async, Plan())[:2]
                         usable_checks += 1
                         if got != ref[again]:
                             diffs.append((again, got, ref[again]))
@@ -821,7 +855,7 @@ def run(ctx, res):
                 elif ob[0] == "completed":
                     cache_obs.append((9, lib_cached, meta))
             for again in ("imp", "other", "imp"):
-                got = observe(env, again, "render", is_async, Plan())[:2]
+                got = observe(env, again, "render_async_shared_loop" if is_async else "render", is_async, Plan())[:2]
                 usable_checks += 1
                 if got != ref[again]:
                     diffs.append((again, got, ref[again]))
